@@ -1030,6 +1030,104 @@ func checkSaveRestore(c *Ctx, t *tables, a *parserAnchors, in installer) {
 			setter = f
 		}
 	}
+	// a save-and-set helper that returns the restore: `func (p) enter(level int) func() { old := field; field = level;
+	// return func() { field = old } }`, used as `defer p.enter(level)()`
+	var enterFn *ssa.Function
+	for _, f := range c.libFunctions("parser") {
+		if f.Parent() != nil || f.Object() == nil || f.Object().Exported() || len(f.Blocks) != 1 || len(f.Params) != 2 || f.Signature.Results().Len() != 1 {
+			continue
+		}
+		if _, isFn := f.Signature.Results().At(0).Type().Underlying().(*types.Signature); !isFn {
+			continue
+		}
+		var ld *ssa.UnOp
+		var st *ssa.Store
+		var mc *ssa.MakeClosure
+		plain := true
+		for _, ins := range f.Blocks[0].Instrs {
+			switch x := ins.(type) {
+			case *ssa.UnOp:
+				if _, ok := isFieldLoad(x, fld); ok && ld == nil {
+					ld = x
+				}
+			case *ssa.Store:
+				if _, ok := isFieldAddr(x.Addr, fld); ok {
+					if st != nil {
+						plain = false
+					}
+					st = x
+				} else if !isLocalCell(x.Addr) {
+					plain = false
+				}
+			case *ssa.MakeClosure:
+				mc = x
+			case *ssa.Call, *ssa.Defer, *ssa.Go, *ssa.MapUpdate, *ssa.Send, *ssa.Panic:
+				plain = false
+			case *ssa.Return:
+				if len(x.Results) != 1 || mc == nil || x.Results[0] != ssa.Value(mc) {
+					plain = false
+				}
+			}
+		}
+		if !plain || ld == nil || st == nil || mc == nil || st.Val != ssa.Value(f.Params[1]) || !instrDominates(ld, st) {
+			continue
+		}
+		// the closure stores the saved value back, unconditionally, and does nothing else to the field
+		cf, _ := mc.Fn.(*ssa.Function)
+		if cf == nil || len(cf.Blocks) != 1 {
+			continue
+		}
+		restores := false
+		for _, ins := range cf.Blocks[0].Instrs {
+			if cst, ok := ins.(*ssa.Store); ok {
+				if _, ok := isFieldAddr(cst.Addr, fld); ok {
+					// the stored value is the captured saved value (a free variable bound to the load, directly or via a cell)
+					restores = true
+					if fv, ok := resolve(cst.Val).(*ssa.FreeVar); ok {
+						for i, b := range mc.Bindings {
+							if i < len(cf.FreeVars) && cf.FreeVars[i] == fv && resolve(b) != ssa.Value(ld) {
+								restores = false
+							}
+						}
+					} else if u, ok := cst.Val.(*ssa.UnOp); ok {
+						// a captured cell: its only store in the helper is the saved load
+						if fv, ok := u.X.(*ssa.FreeVar); ok {
+							for i, b := range mc.Bindings {
+								if i < len(cf.FreeVars) && cf.FreeVars[i] == fv {
+									okCell := false
+									if al, ok := b.(*ssa.Alloc); ok {
+										n := 0
+										for _, r := range *al.Referrers() {
+											if s2, ok := r.(*ssa.Store); ok && s2.Addr == ssa.Value(al) {
+												n++
+												okCell = resolve(s2.Val) == ssa.Value(ld)
+											}
+										}
+										okCell = okCell && n == 1
+									}
+									if !okCell {
+										restores = false
+									}
+								}
+							}
+						} else {
+							restores = false
+						}
+					} else {
+						restores = false
+					}
+				}
+			}
+		}
+		if !restores {
+			continue
+		}
+		if _, closed := c.argsAtCallers(f, 1); closed {
+			enterFn = f
+			allowed[f] = true
+			allowed[cf] = true
+		}
+	}
 	setterArg := func(ins ssa.Instruction) (ssa.Value, bool) {
 		if setter == nil {
 			return nil, false
@@ -1109,85 +1207,107 @@ func checkSaveRestore(c *Ctx, t *tables, a *parserAnchors, in installer) {
 		}
 	})
 	key := "expression wrapper"
-	if save == nil || set == nil || icall == nil {
-		c.bad(key+": save and set", w.Pos(), "the wrapper must load the old value, then store its precedence argument into the field, before calling the interceptor")
-		return
+	handledByHelper := false
+	if enterFn != nil && icall != nil {
+		var ec *ssa.Call
+		allInstrs(w, func(_ *ssa.BasicBlock, _ int, ins ssa.Instruction) {
+			if call, ok := ins.(*ssa.Call); ok && call.Call.StaticCallee() == enterFn {
+				ec = call
+			}
+		})
+		if ec != nil {
+			deferred := false
+			allInstrs(w, func(_ *ssa.BasicBlock, _ int, ins ssa.Instruction) {
+				if d, ok := ins.(*ssa.Defer); ok && d.Call.Value == ssa.Value(ec) && instrDominates(d, icall) && instrDominates(ec, d) {
+					deferred = true
+				}
+			})
+			c.check(instrDominates(ec, icall) && wantPrec != nil && resolve(ec.Call.Args[1]) == wantPrec, key+": save and set", ec.Pos(), "the save-and-set helper is called with the wrapper's own precedence before the interceptor runs", "the field is not set to the wrapper's own precedence argument before the interceptor call")
+			c.check(deferred, key+": restore on every exit", ec.Pos(), "the restore the helper returns is deferred before the interceptor call", "the restore returned by the save-and-set helper is not deferred before the interceptor call: a re-entrant interceptor continues the outer expression with the inner level")
+			handledByHelper = true
+		}
 	}
-	c.check(instrDominates(save, set) && instrDominates(set, icall) && wantPrec != nil && resolve(setVal) == wantPrec, key+": save and set", set.Pos(), "old value loaded, own precedence stored, before the interceptor runs", "the field is not set to the wrapper's own precedence argument before the interceptor call (or the old value is read after it)")
-	// restore: deferred closure registered before the interceptor call, unconditional store of the saved value
-	var restoreOK, anyDefer bool
-	allInstrs(w, func(_ *ssa.BasicBlock, _ int, ins ssa.Instruction) {
-		d, ok := ins.(*ssa.Defer)
-		if !ok {
+	if !handledByHelper {
+		if save == nil || set == nil || icall == nil {
+			c.bad(key+": save and set", w.Pos(), "the wrapper must load the old value, then store its precedence argument into the field, before calling the interceptor")
 			return
 		}
-		// defer p.setter(field) / defer p.setter(saved): the argument is evaluated when the defer statement runs, which
-		// must be before the field is set
-		if setter != nil && d.Call.StaticCallee() == setter {
-			anyDefer = true
-			if !instrDominates(d, icall) {
+		c.check(instrDominates(save, set) && instrDominates(set, icall) && wantPrec != nil && resolve(setVal) == wantPrec, key+": save and set", set.Pos(), "old value loaded, own precedence stored, before the interceptor runs", "the field is not set to the wrapper's own precedence argument before the interceptor call (or the old value is read after it)")
+		// restore: deferred closure registered before the interceptor call, unconditional store of the saved value
+		var restoreOK, anyDefer bool
+		allInstrs(w, func(_ *ssa.BasicBlock, _ int, ins ssa.Instruction) {
+			d, ok := ins.(*ssa.Defer)
+			if !ok {
 				return
 			}
-			arg := resolve(d.Call.Args[1])
-			if ld, ok := arg.(*ssa.UnOp); ok {
-				if _, isFld := isFieldLoad(ld, fld); isFld && instrDominates(ld, set) {
-					restoreOK = true
+			// defer p.setter(field) / defer p.setter(saved): the argument is evaluated when the defer statement runs, which
+			// must be before the field is set
+			if setter != nil && d.Call.StaticCallee() == setter {
+				anyDefer = true
+				if !instrDominates(d, icall) {
+					return
 				}
+				arg := resolve(d.Call.Args[1])
+				if ld, ok := arg.(*ssa.UnOp); ok {
+					if _, isFld := isFieldLoad(ld, fld); isFld && instrDominates(ld, set) {
+						restoreOK = true
+					}
+				}
+				return
 			}
-			return
-		}
-		var dfv ssa.Value = d.Call.Value
-		if mc, ok := dfv.(*ssa.MakeClosure); ok {
-			dfv = mc.Fn
-		}
-		df, ok := dfv.(*ssa.Function)
-		if !ok || df.Parent() == nil {
-			return
-		}
-		anyDefer = true
-		if len(df.Blocks) != 1 || !instrDominates(d, icall) {
-			return
-		}
-		allInstrs(df, func(_ *ssa.BasicBlock, _ int, di ssa.Instruction) {
-			if st, ok := di.(*ssa.Store); ok {
-				if _, ok := isFieldAddr(st.Addr, fld); ok && resolve(st.Val) == ssa.Value(save) {
-					restoreOK = true
-				}
-				// defer func(old int) { field = old }(field): the old value is the defer's argument, evaluated when the
-				// defer statement runs — which must be before the field is set
-				if _, ok := isFieldAddr(st.Addr, fld); ok && set != nil {
-					for i, dp := range df.Params {
-						if st.Val == ssa.Value(dp) && i < len(d.Call.Args) {
-							if ld, ok := d.Call.Args[i].(*ssa.UnOp); ok {
-								if _, isFld := isFieldLoad(ld, fld); isFld && instrDominates(ld, set) {
-									restoreOK = true
+			var dfv ssa.Value = d.Call.Value
+			if mc, ok := dfv.(*ssa.MakeClosure); ok {
+				dfv = mc.Fn
+			}
+			df, ok := dfv.(*ssa.Function)
+			if !ok || df.Parent() == nil {
+				return
+			}
+			anyDefer = true
+			if len(df.Blocks) != 1 || !instrDominates(d, icall) {
+				return
+			}
+			allInstrs(df, func(_ *ssa.BasicBlock, _ int, di ssa.Instruction) {
+				if st, ok := di.(*ssa.Store); ok {
+					if _, ok := isFieldAddr(st.Addr, fld); ok && resolve(st.Val) == ssa.Value(save) {
+						restoreOK = true
+					}
+					// defer func(old int) { field = old }(field): the old value is the defer's argument, evaluated when the
+					// defer statement runs — which must be before the field is set
+					if _, ok := isFieldAddr(st.Addr, fld); ok && set != nil {
+						for i, dp := range df.Params {
+							if st.Val == ssa.Value(dp) && i < len(d.Call.Args) {
+								if ld, ok := d.Call.Args[i].(*ssa.UnOp); ok {
+									if _, isFld := isFieldLoad(ld, fld); isFld && instrDominates(ld, set) {
+										restoreOK = true
+									}
 								}
 							}
 						}
 					}
 				}
-			}
-		})
-	})
-	if !anyDefer {
-		// explicit restore on every return path
-		explicit := true
-		for _, r := range nonRecoverReturns(w) {
-			found := false
-			allInstrs(w, func(_ *ssa.BasicBlock, _ int, ins ssa.Instruction) {
-				if st, ok := ins.(*ssa.Store); ok && ssa.Instruction(st) != set {
-					if _, ok := isFieldAddr(st.Addr, fld); ok && resolve(st.Val) == ssa.Value(save) && instrDominates(icall, st) && st.Block().Dominates(r.Block()) {
-						found = true
-					}
-				}
 			})
-			if !found {
-				explicit = false
+		})
+		if !anyDefer {
+			// explicit restore on every return path
+			explicit := true
+			for _, r := range nonRecoverReturns(w) {
+				found := false
+				allInstrs(w, func(_ *ssa.BasicBlock, _ int, ins ssa.Instruction) {
+					if st, ok := ins.(*ssa.Store); ok && ssa.Instruction(st) != set {
+						if _, ok := isFieldAddr(st.Addr, fld); ok && resolve(st.Val) == ssa.Value(save) && instrDominates(icall, st) && st.Block().Dominates(r.Block()) {
+							found = true
+						}
+					}
+				})
+				if !found {
+					explicit = false
+				}
 			}
+			c.check(explicit, key+": restore on every exit", w.Pos(), "the saved value is stored back on every return path", "the requested binding power is not restored after the interceptor returns: a re-entrant interceptor continues the OUTER expression with the INNER level (visible only at nesting depth >= 2)")
+		} else {
+			c.check(restoreOK, key+": restore on every exit", w.Pos(), "an unconditional deferred store of the saved value, registered before the interceptor call", "the deferred restore is missing, conditional, registered after the interceptor call, or does not store the saved value: a re-entrant interceptor continues the outer expression with the inner level")
 		}
-		c.check(explicit, key+": restore on every exit", w.Pos(), "the saved value is stored back on every return path", "the requested binding power is not restored after the interceptor returns: a re-entrant interceptor continues the OUTER expression with the INNER level (visible only at nesting depth >= 2)")
-	} else {
-		c.check(restoreOK, key+": restore on every exit", w.Pos(), "an unconditional deferred store of the saved value, registered before the interceptor call", "the deferred restore is missing, conditional, registered after the interceptor call, or does not store the saved value: a re-entrant interceptor continues the outer expression with the inner level")
 	}
 	// reader: ParseRemainingExpression passes the field unmodified
 	nr := 0
